@@ -288,6 +288,8 @@ type vfRouteScenario struct {
 	// WMAdvance: the first watermark-only batch after the last scripted batch carries a high watermark this much
 	// above the last batch's (the source's watermark advances without tasks for this cluster)
 	WMAdvance int64 `json:"wm_advance,omitempty"`
+	// EagerAck: the targets complete and acknowledge every task batch the moment it is written to their stream
+	EagerAck bool `json:"eager_ack,omitempty"`
 	// OverlapInPlace (with Overlap): target shard k reconnects on the instance it is already connected to
 	OverlapInPlace int `json:"overlap_in_place,omitempty"`
 	// HungSource: the source cluster does not end a pull stream when the proxy half-closes it (an unresponsive or dead
@@ -1198,6 +1200,14 @@ func (e *vfRouteExec) onTargetSend(t *vfTgt, inc int, m *adminservice.StreamWork
 	}
 	h := sm.High
 	ts.high = &h
+	if e.sc.EagerAck && len(sm.IDs) > 0 && !e.closing {
+		// a target that has processed the batch by the time the proxy's Send returns: it completes the tasks and
+		// acknowledges at once (the acknowledgement travels while the proxy is still inside Send)
+		for i := range ts.queue {
+			ts.queue[i].done = true
+		}
+		e.tick(t)
+	}
 }
 
 func (e *vfRouteExec) checkDeliveredTask(t *vfTgt, inc int, task *replicationv1.ReplicationTask) {
